@@ -58,6 +58,11 @@ add("C03", "other",
     "Termination and panic-freedom inside unmodelled codec inverses is searched only; memory exhaustion and runtime aborts are outside the model.",
     "Coq obligations on regenerated structure facts + protocol theorems; child-process mutant decoding with watchdog", "6/C03")
 
+add("C18", "other",
+    "Partial. Proved in Coq: no assignment to a package-level variable of the library outside init, hashers stateless (facts regenerated from the AST on every run), mutual exclusion on the shared bit stream (C07). Searched: the harness built with -race runs 13 pipelines concurrently (first use of all static tables concurrent, perturbed schedules) and alone, comparing streams and decoded bytes; any race report is a violation.",
+    "The race detector only sees executed schedules; the Go memory model is not modelled.",
+    "Coq obligations on regenerated structure facts + race detector runs with concurrent-vs-isolated differential", "6/C18")
+
 NOT_YET = {}
 def main():
     props = [json.loads(l)["id"] for l in open(os.path.join(ROOT, "properties.jsonl"))]
